@@ -168,8 +168,8 @@ def families(macro):
     for i, lim in enumerate(['1', '3', '1000']):
         for pol in POLICIES:
             out.append(Fx(macro, A(('limit', lim), ('policy', '"%s"' % pol)), ['i32'], None, 'i32', 'L'))
-    for ttl in ['1', '60']:
-        for pol in POLICIES:
+    for ttl in ['1', '60', '0']:
+        for pol in (POLICIES if ttl != '0' else POLICIES[:2]):
             out.append(Fx(macro, A(('ttl', ttl), ('policy', '"%s"' % pol)), ['i32'], None, 'String', 'T'))
     for j, (msrc, _) in enumerate(MEM_VALUES):
         pol = POLICIES[j % 6]
@@ -250,7 +250,7 @@ def slots(macro):
     s = {
         'limit': [None, '1', '3', '1000'],
         'policy': [None] + ['"%s"' % p for p in POLICIES],
-        'ttl': [None, '1', '60'],
+        'ttl': [None, '1', '60', '0'],
         'max_memory': [None] + [m for m, _ in MEM_VALUES],
         'frequency_weight': [None] + [f for f, _ in FW_VALUES],
         'name': [None, '"custom_%d"'],
